@@ -373,6 +373,12 @@ func init() {
 		if err != nil {
 			evid.Inconclusive("trace validation: %v", err)
 		}
+		// the peer falls silent inside the message for longer than ReadTimeout (MC_Idle):
+		// what arrives afterwards is never executed
+		imc := modelCheck("MC_Idle", "MC_Idle.cfg", 8)
+		ist := tourSome(run, dumpEdges("MC_Idle", "Dump_Idle.cfg"), func(e *sessrep.Edge) bool { return e.Lbl.Cmd.C == "DATASTALL" })
+		fmt.Printf("C02: MC_Idle %d states; %d/%d stalled-DATA transitions replayed (a real ReadTimeout each)\n", imc.Distinct, ist.Covered, ist.Edges)
+		nconv += ist.Convs
 		// several messages per connection: commands resume after every one of them
 		nh := 240
 		if tier == "thorough" {
